@@ -375,3 +375,55 @@ func HarnessC08StreamEnvelopes() {
 		}
 	}
 }
+
+// HarnessC08EncodingNameCase: algorithm names are matched exactly: a request
+// whose encoding header differs from a registered name only in the case of
+// one letter (symbolic position) names an algorithm the handler lacks - it is
+// rejected as unimplemented without running user code, like any unknown name,
+// in every protocol, unary and streaming.
+//
+//verif:harness property=C08 stubs=json,wire shard=proto:3
+func HarnessC08EncodingNameCase() {
+	proto := nondetChoice("proto", 3)
+	streaming := nondetBool("streaming")
+	userCalls := 0
+	opts := []HandlerOption{WithCodec(&stackCodec{}), WithCompressMinBytes(1 << 20), c08XorHandler("gzip")}
+	var handler *Handler
+	if streaming {
+		handler = NewClientStreamHandler("/pkg.Svc/Method", func(ctx context.Context, s *ClientStream[[]byte]) (*Response[[]byte], error) {
+			userCalls++
+			for s.Receive() {
+			}
+			if err := s.Err(); err != nil {
+				return nil, err
+			}
+			out := []byte{1}
+			return NewResponse(&out), nil
+		}, opts...)
+	} else {
+		handler = NewUnaryHandler("/pkg.Svc/Method", func(ctx context.Context, req *Request[[]byte]) (*Response[[]byte], error) {
+			userCalls++
+			out := []byte{1}
+			return NewResponse(&out), nil
+		}, opts...)
+	}
+	name := []byte("gzip")
+	i := nondetInt("flipAt")
+	assume(i >= 0 && i < len(name))
+	name[i] = name[i] - 'a' + 'A'
+	unaryConnect := proto == 0 && !streaming
+	ct := []string{"application/connect+proto", "application/grpc+proto", "application/grpc-web+proto"}[proto]
+	encHeader := []string{connectStreamingHeaderCompression, grpcHeaderCompression, grpcHeaderCompression}[proto]
+	body := refFrame(1, []byte{0xC5, 0x41 ^ 0x5A})
+	if unaryConnect {
+		ct, encHeader, body = "application/proto", connectUnaryHeaderCompression, []byte{0xC5, 0x41 ^ 0x5A}
+	}
+	rec := newRecWriter()
+	req := &http.Request{Method: "POST", ProtoMajor: 2, Header: http.Header{"Content-Type": {ct}, encHeader: {string(name)}}, Body: &faultReader{data: body, cut: len(body)}}
+	handler.ServeHTTP(rec, req)
+	status, rh, rt, rbody := rec.finish()
+	code, wellFormed := c07ResponseCode(proto, unaryConnect, status, rh, rt, rbody)
+	check(wellFormed, "the response is well-formed")
+	check(code == int(CodeUnimplemented), "an encoding name that differs from a registered one in letter case is rejected as unimplemented")
+	check(userCalls == 0, "user code does not run when the request compression is unsupported")
+}
